@@ -333,6 +333,15 @@ class Pragma(Instruction):
         """
         return self._program_version
 
+    @property
+    def cost(self) -> int:
+        """`#pragma version` is a directive for the assembler. It is not executed.
+
+        Returns:
+            Zero. No opcode is generated for the instruction.
+        """
+        return 0
+
 
 class Err(Instruction):
     """`err` creates a error failing the execution of teal program immediately.
@@ -1857,6 +1866,15 @@ class Label(InstructionWithLabel):
 
     def __str__(self) -> str:
         return f"{self._label}:"
+
+    @property
+    def cost(self) -> int:
+        """A label only names a position in the program. It is not executed.
+
+        Returns:
+            Zero. No opcode is generated for the instruction.
+        """
+        return 0
 
 
 class Callsub(InstructionWithLabel):
